@@ -34,7 +34,7 @@ ASSUMPTIONS = [
 STATUSES = ("success", "failure", "unreachable", "pending")
 
 
-def _mk_env(kind: str, flatten: bool = False, scenario_file: str = "", busy: bool = False):
+def _mk_env(kind: str, flatten: bool = False, scenario_file: str = "", busy: bool = False, save: bool = False):
     from primaite.session.environment import PrimaiteGymEnv
 
     quiet()
@@ -48,7 +48,7 @@ def _mk_env(kind: str, flatten: bool = False, scenario_file: str = "", busy: boo
             cfg["io_settings"][k] = False
         cfg.setdefault("game", {}).setdefault("seed", 3)
     else:
-        cfg = mini_scenario(kind, flatten_obs=flatten, green_busy=busy)
+        cfg = mini_scenario(kind, flatten_obs=flatten, green_busy=busy, save_actions=save)
     return PrimaiteGymEnv(env_config=copy.deepcopy(cfg))
 
 
@@ -103,11 +103,11 @@ def check_reset(env, label: str, check_obs: bool = True):
     return obs
 
 
-def step_contract(a0: int, a1: int, a2: int, M: int, reset_at: int, k: int = 2, kind: str = "switched", scenario_file: str = "", check_obs: bool = False, busy: bool = False):
+def step_contract(a0: int, a1: int, a2: int, M: int, reset_at: int, k: int = 2, kind: str = "switched", scenario_file: str = "", check_obs: bool = False, busy: bool = False, save: bool = False):
     """k steps with solver-chosen actions and episode limit M; a reset after `reset_at` steps (0..k, k = none);
     one more step after the last one to confirm the contract keeps holding (incl. after truncation)."""
     with concrete():
-        env = _mk_env(kind, scenario_file=scenario_file, busy=busy)
+        env = _mk_env(kind, scenario_file=scenario_file, busy=busy, save=save)
         n_actions = len(env.agent.action_manager.action_map)
     acts = [a0, a1, a2][:k]
     assume(all_of(rng(M, 1, k + 1), rng(reset_at, 0, k), *[rng(a, 0, n_actions - 1) for a in acts]))
@@ -188,7 +188,9 @@ HARNESSES = {
         + [{"fixed": {"k": 2, "kind": "switched", "a0": _IX_RM_DMB, "reset_at": 2}, "timeout": 280}]
         + [{"fixed": {"k": 3, "kind": "switched", "a0": _IX_INST_DOS, "a1": _IX_RM_DOS, "reset_at": 3, "M": 4}, "timeout": 280}]
         # a GREEN agent that uses its application in every step, while the defender acts on it in the same step
-        + [{"fixed": {"k": 2, "kind": "switched", "busy": True, "a0": 0, "reset_at": 2}, "timeout": 280}],
+        + [{"fixed": {"k": 2, "kind": "switched", "busy": True, "a0": 0, "reset_at": 2}, "timeout": 280}]
+        # the default io setting save_agent_actions: every reset writes the episode's action log (after a run-time install)
+        + [{"fixed": {"k": 2, "kind": "switched", "save": True, "a0": _IX_INST_DOS, "reset_at": 2}, "timeout": 280}],
         "thorough": [{"fixed": {"k": 2, "kind": kd, "a0": a}, "timeout": 1500} for kd in ("switched", "routed") for a in range(0, 62, 2)]
         + [{"fixed": {"k": 2, "kind": "firewalled", "a0": a}, "timeout": 1500} for a in range(1, 79, 6)]
         + [{"fixed": {"k": 1, "kind": "", "scenario_file": f}, "timeout": 1500} for f in SHIPPED],
